@@ -232,7 +232,7 @@ MON_EXPRS = {
     "c11g": "c11_g_bad 0 [] (obs_of (snd @CASE@))",
     "c11cur": "c11_cur_bad 0 [] None (obs_of (snd @CASE@))",
     "c11nil": "c11_nil_bad 0 (fst @CASE@) false (snd @CASE@)",
-    "c01": "first_bad (c01_obs_ok (collect_vals [] (obs_of (snd @CASE@)))) 0 (obs_of (snd @CASE@))",
+    "c01": "first_bad (c01_obs_ok (collect_vals [(k_init_h (ms_k (fst @CASE@)), (vs_keys (k_init_vs (ms_k (fst @CASE@))), vs_pows (k_init_vs (ms_k (fst @CASE@)))))] (obs_of (snd @CASE@)))) 0 (obs_of (snd @CASE@))",
 }
 
 
@@ -269,7 +269,7 @@ def mirror_check(c, prop_file, monitors, what, quick=(40, 30), thorough=(600, 40
         import json
         rp = json.load(open(c.replay))
         seeds = [(rp.get("batch_seed"), rp.get("batch_cases", 5), rp.get("ops", nops))]
-    cases, stats, crashes = run_harness(c, binary, c.seed, ncases, nops, extra=extra)
+    cases, stats, crashes = run_harness(c, binary, c.seed, ncases, nops, extra=["-replay"] + list(extra))
     model_ok = tok
     if tok:
         okm, mlog = c.coq_make(["Model/MirrorObs.vo", "Monitors/MirrorM.vo"])
